@@ -49,6 +49,12 @@ def run(repo, rep):
     rep.clause("C09-d", "rounding mode: round_away_zero (significand rounding of quantise_scale) rounds half away from zero like the reference's std::round; the 8-bit equal-scale add/sub "
                "leaves the reference (advanced, left shift 20) derivation only when the low 12 bits of the OFM multiplier are zero")
     rep.clause("C09-e", "packed scale records are cached under a key whose ifm/ofm scale components are read by the same accessors as the scales the records are derived from")
+    rep.clause("C09-q", "every packed record pairs channel c's bias with channel c's (multiplier, shift): the index of the bias and the index of the scale pair agree for every core, depth slice and position (index expressions folded over 1 and 2 cores)")
+    rule_record_pairing(repo, rep)
+    rep.clause("C09-r", "int16 SOFTMAX: the input is rescaled to the reference kernel's exp-LUT range, input_scale * beta / (10 / 65535) (the constant is folded from the source)")
+    rule_softmax_int16_range(repo, rep)
+    rep.clause("C09-s", "the ADD that a 1x1 resize is lowered to takes its forced output scale from the operand slot where the lowering left the real input (producer and consumer agree on the slot)")
+    rule_resize_add_slot(repo, rep)
     rep.undecided("relative error bounds, equality with the TFLite derivation for all real scales")
     sc = repo.mod("scaling")
 
@@ -734,3 +740,181 @@ def rule_round7(repo, rep):
     all_sides = "sum(npu_op.padding) == 0" in t or all(f"padding.{sd}" in t for sd in ("top", "left", "bottom", "right")) or "all(" in t and "npu_op.padding" in t
     rep.check(all_sides, "C09-n", "ethosu/vela/register_command_stream_generator.py:generate_pooling_op", "the global average-pool divisor is used only for pools without padding on any side",
               f"`{t[:120]}`: a pool padded at the bottom / right only (SAME padding of an even kernel) divides its border windows by the full window size (2x2, acc 200: 50 instead of 100)")
+
+
+def rule_record_pairing(repo, rep):
+    """(q) weight_compressor.encode_weight_and_scale_tensor deals the channels of a depth slice to the cores with stride `ncores` and packs
+    one record per channel with `encode_bias(bias, *scale_pair)`. The loop is resolved symbolically: the bias argument is element t of an
+    iterable that is a slice of `biases`; the scale pair is `<S>[<index>]` with S a slice of `quantised_scales` or the list itself and the
+    index an expression in the enumerate counter. Both resolve to an absolute channel index; they must agree for 1 and 2 cores, two slice
+    offsets, lengths 1..8 and every position."""
+    wc = repo.mod("weight_compressor")
+    f = wc.func("encode_weight_and_scale_tensor")
+    site = "ethosu/vela/weight_compressor.py:encode_weight_and_scale_tensor"
+    if f is None:
+        raise AnalysisError("weight_compressor.encode_weight_and_scale_tensor not found")
+    assigns = {}
+    for st in ast.walk(f):
+        if isinstance(st, ast.Assign) and len(st.targets) == 1 and isinstance(st.targets[0], ast.Name):
+            assigns.setdefault(st.targets[0].id, []).append(st.value)
+
+    def slice_of(e, base):
+        """(lower, upper, step) if e is `<base>[lo:hi:st]`, reached through at most one local name; ("all",) if e is the base itself"""
+        if isinstance(e, ast.Name) and e.id == base:
+            return ("all",)
+        if isinstance(e, ast.Name) and len(assigns.get(e.id, [])) == 1:
+            e = assigns[e.id][0]
+        if isinstance(e, ast.Subscript) and isinstance(e.slice, ast.Slice) and str(norm(e.value)) == base:
+            return (e.slice.lower, e.slice.upper, e.slice.step)
+        return None
+
+    loops = [l for l in ast.walk(f) if isinstance(l, ast.For) and any((call_name(c) or "").split(".")[-1] == "encode_bias" for c in ast.walk(l) if isinstance(c, ast.Call))]
+    inner = [l for l in loops if not any(o is not l and any(x is o for x in ast.walk(l)) for o in loops)]
+    if len(inner) != 1:
+        raise AnalysisError(f"encode_weight_and_scale_tensor: the loop that packs the records was not found ({len(inner)} candidates)")
+    loop = inner[0]
+    call = [c for c in ast.walk(loop) if isinstance(c, ast.Call) and (call_name(c) or "").split(".")[-1] == "encode_bias"][0]
+    it_ = loop.iter
+    counter = None
+    start = ast.Constant(0)
+    elem = None
+    scale_iter = None
+    if isinstance(it_, ast.Call) and call_name(it_) == "enumerate" and isinstance(loop.target, ast.Tuple) and len(loop.target.elts) == 2:
+        counter, elem = loop.target.elts[0].id, loop.target.elts[1]
+        if len(it_.args) > 1:
+            start = it_.args[1]
+        for kw in it_.keywords:
+            if kw.arg == "start":
+                start = kw.value
+        bias_iter = it_.args[0]
+    elif isinstance(it_, ast.Call) and call_name(it_) == "zip" and isinstance(loop.target, ast.Tuple) and len(it_.args) == 2:
+        bias_iter, scale_iter = it_.args
+        elem = loop.target.elts[0]
+    else:
+        bias_iter, elem = it_, loop.target
+    if not isinstance(elem, ast.Name):
+        raise AnalysisError("record loop: element variable not a plain name")
+    b = call.args[0]
+    while isinstance(b, ast.Call) and len(b.args) == 1 and (call_name(b) or "").split(".")[-1] in ("int64", "int", "int32"):
+        b = b.args[0]
+    bias_sl = slice_of(bias_iter, "biases") if isinstance(b, ast.Name) and b.id == elem.id else None
+    if bias_sl is None:
+        raise AnalysisError(f"record loop: bias argument `{norm(call.args[0])}` over `{norm(bias_iter)}` not resolved to a slice of `biases`")
+    sc = [a for a in call.args[1:] if isinstance(a, ast.Starred)]
+    if len(sc) != 1:
+        raise AnalysisError("record loop: no `*<scale pair>` argument")
+    sv = sc[0].value
+    if scale_iter is not None and isinstance(sv, ast.Name) and sv.id == loop.target.elts[1].id:
+        scale_sl, idx_expr = slice_of(scale_iter, "quantised_scales"), None
+    elif isinstance(sv, ast.Subscript) and not isinstance(sv.slice, ast.Slice):
+        scale_sl, idx_expr = slice_of(sv.value, "quantised_scales"), sv.slice
+    else:
+        scale_sl = None
+    if scale_sl is None:
+        raise AnalysisError(f"record loop: scale argument `{norm(sv)}` not resolved to an element of `quantised_scales`")
+
+    def absolute(sl, pos, env):
+        if sl == ("all",):
+            return pos
+        lo = eval_with(sl[0], env) if sl[0] is not None else 0
+        stp = eval_with(sl[2], env) if sl[2] is not None else 1
+        if lo is None or stp is None:
+            raise AnalysisError("record loop: slice bounds not foldable")
+        return lo + pos * stp
+
+    def count(sl, env, total):
+        if sl == ("all",):
+            return total
+        lo = eval_with(sl[0], env) if sl[0] is not None else 0
+        hi = eval_with(sl[1], env) if sl[1] is not None else total
+        stp = eval_with(sl[2], env) if sl[2] is not None else 1
+        return len(range(lo, min(hi, total), stp))
+
+    wrong = None
+    pts = 0
+    for ncores in (1, 2):
+        for offset in (0, 16):
+            for length in range(1, 9):
+                for core in range(ncores):
+                    env = {"depth_offset": offset, "core": core, "depth_length": length, "arch.ncores": ncores}
+                    for t in range(count(bias_sl, env, offset + length)):
+                        bi = absolute(bias_sl, t, env)
+                        if idx_expr is None:
+                            si = absolute(scale_sl, t, env)
+                        else:
+                            st_ = eval_with(start, env)
+                            iv = eval_with(idx_expr, {**env, **({counter: t + st_} if counter else {})})
+                            if st_ is None or iv is None:
+                                raise AnalysisError(f"record loop: scale index `{norm(idx_expr)}` not foldable")
+                            si = absolute(scale_sl, iv, env)
+                        pts += 1
+                        if bi != si and wrong is None:
+                            wrong = (ncores, core, offset, length, t, bi, si)
+    rep.check(wrong is None, "C09-q", site, f"record t of a core packs bias[c] with quantised_scales[c] for the same channel c ({pts} positions)",
+              (f"{wrong[0]} cores, core {wrong[1]}, slice [{wrong[2]}, {wrong[2] + wrong[3]}), record {wrong[4]}: the bias of channel {wrong[5]} is packed with the (multiplier, shift) of channel {wrong[6]}: "
+               "per-channel scales reach the wrong output channels on a multi-core part") if wrong else "")
+
+
+def rule_softmax_int16_range(repo, rep):
+    """(r) The reference int16 softmax derives its input multiplier from `input_scale * beta / (10.0 / 65535.0)` (the exp LUT spans
+    [-10, 0] over 16 bits). In SoftMax.get_graph_int16 the divisor is the third argument of the `elementwise_mul_scale` call whose
+    second argument is beta; it is resolved through local names and folded. The same value must be the scale of that MUL's output
+    quantisation (the register pair is derived from both)."""
+    sm = repo.mod("softmax")
+    f = sm.func("SoftMax.get_graph_int16")
+    site = "ethosu/vela/softmax.py:SoftMax.get_graph_int16"
+    if f is None:
+        raise AnalysisError("softmax.SoftMax.get_graph_int16 not found")
+    loc = {}
+    for st in ast.walk(f):
+        if isinstance(st, ast.Assign) and len(st.targets) == 1 and isinstance(st.targets[0], ast.Name):
+            loc.setdefault(st.targets[0].id, []).append(st.value)
+
+    def fold(e):
+        if isinstance(e, ast.Name) and len(loc.get(e.id, [])) == 1:
+            e = loc[e.id][0]
+        return try_fold(e, default=None)
+
+    calls = [c for c in ast.walk(f) if isinstance(c, ast.Call) and (call_name(c) or "").split(".")[-1] == "elementwise_mul_scale" and len(c.args) == 3 and str(norm(c.args[1])) == "beta"]
+    if len(calls) != 1:
+        raise AnalysisError(f"get_graph_int16: the beta rescale call was not found ({len(calls)} candidates)")
+    v = fold(calls[0].args[2])
+    if v is None:
+        raise AnalysisError(f"get_graph_int16: output range `{norm(calls[0].args[2])}` not foldable")
+    want = 10.0 / 65535.0
+    rep.check(abs(v - want) <= 1e-15, "C09-r", site, f"`{norm(calls[0])}`: output range = 10 / 65535",
+              f"output range {v!r}: the reference divides by 10 / 65535 = {want!r}; multiplier and OFM scale of the beta MUL are off by {abs(v / want - 1):.1e} relative (2^-31 allowed)")
+    # the quantisation of that MUL's output carries the same value
+    tgt = [st for st in ast.walk(f) if isinstance(st, ast.Assign) and isinstance(st.targets[0], ast.Attribute) and st.targets[0].attr == "scale_f32" and isinstance(calls[0].args[2], ast.Name)
+           and isinstance(st.value, ast.Name) and st.value.id == calls[0].args[2].id]
+    rep.check(bool(tgt) or not isinstance(calls[0].args[2], ast.Name), "C09-r", site, "the MUL's output quantisation takes the same range variable", "no `<quant>.scale_f32 = <range variable>` in the function")
+
+
+def rule_resize_add_slot(repo, rep):
+    """(s) tflite_graph_optimiser.convert_resize_1x1_to_add stores an all-zero constant of scale 1.0 in one operand slot and the real input in
+    the other; high_level_command_to_npu_op.create_npu_elementwise_op forces the output scale of that ADD to 'the input scale' by reading
+    one operand's quantisation. The slot the consumer reads must be the slot the producer did not fill with the constant."""
+    go = repo.mod("tflite_graph_optimiser")
+    f = go.func("convert_resize_1x1_to_add")
+    if f is None:
+        raise AnalysisError("tflite_graph_optimiser.convert_resize_1x1_to_add not found")
+    const_slot = None
+    for c in ast.walk(f):
+        if isinstance(c, ast.Call) and (call_name(c) or "").endswith("set_input_tensor") and len(c.args) == 2 and any((call_name(x) or "").endswith("create_const_tensor") for x in ast.walk(c.args[0]) if isinstance(x, ast.Call)):
+            const_slot = try_fold(c.args[1], default=None)
+        if isinstance(c, ast.Assign) and isinstance(c.targets[0], ast.Subscript) and str(norm(c.targets[0].value)) == "op.inputs" and any((call_name(x) or "").endswith("create_const_tensor") for x in ast.walk(c.value) if isinstance(x, ast.Call)):
+            const_slot = try_fold(c.targets[0].slice, default=None)
+    if const_slot not in (0, 1):
+        raise AnalysisError("convert_resize_1x1_to_add: the slot of the zero constant was not found")
+    hl = repo.mod("high_level_command_to_npu_op")
+    g = hl.func("create_npu_elementwise_op")
+    site = "ethosu/vela/high_level_command_to_npu_op.py:create_npu_elementwise_op"
+    branches = [i for i in ast.walk(g) if isinstance(i, ast.If) and "is_resize_op" in str(norm(i.test))]
+    if len(branches) != 1:
+        raise AnalysisError(f"create_npu_elementwise_op: the resize-ADD branch was not found ({len(branches)})")
+    reads = [x for st in branches[0].body for x in ast.walk(st) if isinstance(x, ast.Attribute) and x.attr in ("ifm", "ifm2") and str(norm(x.value)) in ("npu_op", "op", "cmd.ps.primary_op")]
+    if not reads:
+        raise AnalysisError("create_npu_elementwise_op: the resize-ADD branch reads no operand")
+    want = "ifm2" if const_slot == 0 else "ifm"
+    rep.check(all(r.attr == want for r in reads), "C09-s", site, f"the forced output scale of the resize ADD is read from `{want}` (the zero constant sits in slot {const_slot})",
+              f"`{norm(branches[0].body[0])}`: slot {const_slot} holds the all-zero constant of scale 1.0: OFM_SCALE becomes the pair for scale 1.0 and the copied input is multiplied by its own scale")
